@@ -35,6 +35,7 @@ def setup(ctx):
         "non-dyadic rates are compared with tolerance: decisions within 1e-9 tokens of the threshold are undecided",
     ]
     ctx.require("monitor", "effect_probes", 50)
+    ctx.require("monitor", "effect_probes_with_extra_reads", 50)
     ctx.require("monitor", "decisions", 20000)
     ctx.require("monitor", "refusals", 2000)
     ctx.require("monitor", "cleanup_ticks", 50)
@@ -518,22 +519,24 @@ def run_effect(ctx):
 
     reqs = {"gemini": b"gemini://h/x\r\n", "titan-upload": b"titan://h/f.txt;size=3;mime=text/plain\r\nabc", "titan-delete": b"titan://h/f.txt;size=0\r\n"}
     for cap in (1, 2, 5):
-        for kind, req in reqs.items():
-            for mix in (False, True):
-                seq = [req] * (cap + 4) if not mix else [reqs[k] for k in ("titan-upload", "gemini", "titan-delete", "titan-upload", "gemini", "titan-upload", "titan-delete", "gemini", "titan-upload")][: cap + 4]
-                rows = effect_probe(lambda: M.MiddlewareChain([M.RateLimiter(M.RateLimitConfig(capacity=cap, refill_rate=1 / 4096, retry_after=7))]),
-                                    [("10.7.0.1", 40000)], seq, settle=0.05)
-                carried = sum(r[3] + r[4] for r in rows)
-                admitted = sum(1 for r in rows if r[2] is not None and r[2] != 44)
-                ctx.count("monitor", "effect_probes", len(rows))
-                wit = {"capacity": cap, "requests": kind if not mix else "mixed", "statuses": [r[2] for r in rows], "handler_entries": [r[3] + r[4] for r in rows]}
-                if carried > cap:
-                    ctx.violation(f"over-admission:carried-out:request={kind if not mix else 'mixed'}", f"{carried} requests reached a handler in one burst, capacity is {cap}", wit)
-                elif any((r[2] == 44) and (r[3] or r[4]) for r in rows):
-                    ctx.violation("refused-but-carried-out", "a request answered 44 reached a handler", wit)
-                elif admitted != cap or carried != cap:
-                    ctx.violation("wrongly-refused:effect-probe", f"a burst of {len(rows)} on a full bucket of {cap}: {admitted} admitted, {carried} carried out", wit)
-                ctx.case(("effect", cap, kind, mix, carried), True, sample=wit)
+        for kind, req, extra, mix in [(k_, r_, e_, m_) for k_, r_ in reqs.items() for e_ in (None, [b"\r\n"], [b"x", b"\n", b"more"]) for m_ in (False, True)]:
+            seq = [req] * (cap + 4) if not mix else [reqs[k] for k in ("titan-upload", "gemini", "titan-delete", "titan-upload", "gemini", "titan-upload", "titan-delete", "gemini", "titan-upload")][: cap + 4]
+            # one request costs one token however many reads it (and what follows it) arrives in
+            rows = effect_probe(lambda: M.MiddlewareChain([M.RateLimiter(M.RateLimitConfig(capacity=cap, refill_rate=1 / 4096, retry_after=7))]),
+                                [("10.7.0.1", 40000)], seq, settle=0.05, extra_reads=[extra] if extra else None)
+            if extra:
+                ctx.count("monitor", "effect_probes_with_extra_reads", len(rows))
+            carried = sum(r[3] + r[4] for r in rows)
+            admitted = sum(1 for r in rows if r[2] is not None and r[2] != 44)
+            ctx.count("monitor", "effect_probes", len(rows))
+            wit = {"capacity": cap, "requests": kind if not mix else "mixed", "reads_right_after_each_request": extra, "statuses": [r[2] for r in rows], "handler_entries": [r[3] + r[4] for r in rows]}
+            if carried > cap:
+                ctx.violation(f"over-admission:carried-out:request={kind if not mix else 'mixed'}", f"{carried} requests reached a handler in one burst, capacity is {cap}", wit)
+            elif any((r[2] == 44) and (r[3] or r[4]) for r in rows):
+                ctx.violation("refused-but-carried-out", "a request answered 44 reached a handler", wit)
+            elif admitted != cap or carried != cap:
+                ctx.violation("wrongly-refused:effect-probe", f"a burst of {len(rows)} on a full bucket of {cap}: {admitted} admitted, {carried} carried out", wit)
+            ctx.case(("effect", cap, kind, mix, carried), True, sample=wit)
 
 
 def run(ctx):
